@@ -1280,8 +1280,8 @@ func (a *alertState) percentChange() float64 {
 	weight := (maxWeight / weightDiff)
 	step := (maxWeight - weight) / float64(l-1)
 	for i := 0; i < l-1; i++ {
-		// get current index
-		c := (i + a.idx) % l
+		// get current index, from the oldest pair of events to the newest
+		c := (i + a.idx + 2) % l
 		// get previous index
 		p := c - 1
 		// check for wrap around
